@@ -179,11 +179,19 @@ def specObs : Exec → Obs
   | .otherExc => .raw
   | .ok d n rc => .ok n rc (if d then .cols else .raises)
 
+/-- DuckDB's `fetch_arrow_table()` hands the result over in record batches of 1 000 000 rows (its default
+    `rows_per_batch`); `to_ipc` (`arrow.py:46-57`) writes exactly one batch and raises NotImplementedError otherwise -/
+def batchRows : Nat := 1000000
+
+/-- number of record batches of an `n`-row result -/
+def batches (n : Nat) : Nat := (n + batchRows - 1) / batchRows
+
 /-- `query_request` (`server.py:53-101`, after the `fix:` commits) seen through the connector -/
 def implObs : Exec → Obs
   | .progErr e s m => .progErr e s m          -- error JSON; the connector raises ProgrammingError(errno, sqlstate, msg)
   | .otherExc => .http500                     -- only ProgrammingError is caught
-  | .ok true n rc => .ok n rc .cols           -- total = cursor.rowcount
+  | .ok true n rc =>                          -- total = cursor.rowcount
+    if batches n ≤ 1 then .ok n rc .cols else .http500      -- `to_ipc`: "N batches" → HTTP 500
   | .ok false 0 rc => .ok 0 rc .empty         -- no rows and not describable: empty rowtype
   | .ok false (_ + 1) _ => .http500           -- rows but no rowtype
 
@@ -191,11 +199,12 @@ def findingOf : Exec → String
   | .otherExc => "C17/http500-untranslated-exception"
   | .ok false 0 _ => "C17/description-unavailable-empty"
   | .ok false (_ + 1) _ => "C17/http500-undescribable-rows"
+  | .ok true n _ => if batches n ≤ 1 then "-" else "C17/http500-multi-batch"
   | _ => "-"
 
 def execInEnv : Exec → Bool
   | .progErr .. => true
-  | .ok true _ _ => true
+  | .ok true n _ => decide (n ≤ batchRows)
   | _ => false
 
 /-! ## 6. sessions -/
